@@ -68,6 +68,28 @@ class Alphabet:
             return frozenset(self.names)
         return frozenset([cls_name])
 
+    def within_string(self, atoms, text):
+        """`token.value in text` with a STRING on the right is a substring test: (atoms whose value may be a substring of text, atoms whose value may not)"""
+        subs = {text[i:j] for i in range(len(text)) for j in range(i + 1, len(text) + 1)} | {""}
+        yes, no = set(), set()
+        for a in atoms:
+            if a == OTHER:
+                if any(x not in self.keywords and x and (x[0].isalpha() or x[0] == "_") and all(c.isalnum() or c == "_" for c in x) for x in subs):
+                    yes.add(a)
+                no.add(a)
+            elif a.startswith("Name:"):
+                (yes if a[5:] in subs else no).add(a)
+            elif a in ("String", "BlockString"):
+                yes.add(a)
+                no.add(a)
+            elif a in ("Integer", "Float"):
+                if any(x and all(c in "0123456789+-.eE" for c in x) for x in subs):
+                    yes.add(a)
+                no.add(a)
+            else:
+                (yes if self.const_value.get(a) in subs else no).add(a)
+        return frozenset(yes), frozenset(no)
+
     def with_value(self, atoms, value):
         """(atoms that may have .value == value, atoms that may have .value != value)"""
         yes, no = set(), set()
@@ -593,6 +615,8 @@ class Extractor:
                     for v in values:
                         y, n_ = self.A.with_value(atoms, v)
                         yes, no = yes | y, no & n_
+                    if isinstance(op, (ast.In, ast.NotIn)) and isinstance(right.value, str):
+                        yes, no = self.A.within_string(atoms, right.value)      # `x in "on"` is a substring test, not membership in ("on",)
                     neg = isinstance(op, (ast.NotEq, ast.NotIn))
                     for s3, n3, o in self.decide(s2, n2, line, text, left.tid, yes, no, s2.slot_of(left.tid)):
                         out.append((s3, n3, o != neg))
@@ -607,6 +631,8 @@ class Extractor:
                     for v in values:
                         y, n_ = self.A.with_value(names, v)
                         yes, no = yes | y, no & n_
+                    if isinstance(op, (ast.In, ast.NotIn)) and isinstance(right.value, str):
+                        yes, no = self.A.within_string(names, right.value)
                     neg = isinstance(op, (ast.NotEq, ast.NotIn))
                     target = self.aut.edges[left.edge]
                     for s3, n3, o in self.split_edge(s2, n2, lambda l, t=target[2]: l is t, [(True, yes), (False, no)]):
